@@ -165,7 +165,7 @@ void op_dump(const Step& s) {
 	std::string text = bu ? c.h[i].bu->DumpToString(ser) : c.h[i].td->DumpToString(ser);
 	api_end(); observe(text);
 	mdl::Desc d; std::string err; TA shown;
-	if (!mdl::parse_timbuk_ref(text, d, &err)) { violation("C13.dump-well-formed", "bdd_dump", err); return; }
+	if (!mdl::parse_timbuk_ref(text, d, &err)) { if (armed("C13")) violation("C13.dump-well-formed", "bdd_dump", err); return; }
 	if (!mdl::desc_to_ta(d, "", shown)) throw Skip();
 	Blob b; b.bytes = text; b.kind = bu ? "bu" : "td"; b.model_lit = mdl::to_lit(shown); b.owner = s.client; blobs().push_back(b);
 }
@@ -205,6 +205,7 @@ void op_binary(const Step& s) {
 	size_t i = HI(s, 0, bu), j = HI(s, 1, bu); Client& c = CL(s);
 	TA ma = c.h[i].model, mb = c.h[j].model; const char* kn[] = {"union", "union_disj", "isect"};
 	{ size_t na = ma.states().size() + ma.rules.size(), nb = mb.states().size() + mb.rules.size(); if (na > 200 || nb > 200 || na * nb > 6000) throw Skip(); }     // results fed back into products: see ops_fa.cc
+	if (kind == 1 && c.h[i].origin == c.h[j].origin) throw Skip();      // UnionDisjointStates asks for disjoint state sets: two copies of one automaton cannot be made to satisfy that
 	const std::string site = std::string("bdd_") + kn[kind] + (bu ? ":bu" : ":td") + (c.h[i].origin == c.h[j].origin ? ":shared-table" : "");
 	bool with_maps = s.arg(4) & 1;
 	VATA::AutBase::StateToStateMap m1, m2; VATA::AutBase::ProductTranslMap pm; TA got; bool ok = true;
@@ -305,6 +306,7 @@ int bu_incl(const BU& a, const BU& b, long sel, long via) {
 		if (via == 0 && (!ip.GetUseSimulation() || sel == 5)) return BU::CheckInclusion(a, b, ip) ? 1 : 0;   // sel 5 computes its simulation itself
 		Arguments args; args.options = o; return ::CheckInclusion<BU>(a, b, args) ? 1 : 0;
 	} catch (const VATA::NotImplementedException&) { count(c_notimpl_thrown); return 2; }
+	catch (const std::exception&) { if (via != 2 && !bu_implemented(sel)) { count(c_notimpl_thrown); return 2; } throw; }      // "reported by an exception": any exception will do
 }
 
 // Top-down inclusion.  With simulation the preorder is obtained the only way
@@ -325,11 +327,16 @@ int td_incl(const TD& a, const TD& b, const BU* abu, const BU* bbu, long sel) {
 		ip.SetSimulation(&sim);
 		return TD::CheckInclusion(ta, tb, ip) ? 1 : 0;
 	} catch (const VATA::NotImplementedException&) { count(c_notimpl_thrown); return 2; }
+	catch (const std::exception&) { if (!td_implemented(sel)) { count(c_notimpl_thrown); return 2; } throw; }
 }
 
 void judge(const std::string& site, bool implemented, int v, const TA& ma, const TA& mb, uint64_t tag) {
 	api_end(); count(c_oracle_evals);
-	if (!implemented) { if (v != 2) violation("C07.unimplemented-selection", site, "an unimplemented selection returned a verdict instead of an exception"); return; }
+	if (!implemented) {
+		// "unimplemented selections are reported by an exception, never by a wrong verdict": a verdict that is returned must be right
+		if (v != 2) { int want = mdl::incl(ma, mb); if (want >= 0 && v != want) violation("C07.unimplemented-selection", site, std::string("a selection that is not among the implemented ones returned the wrong verdict ") + (v ? "true" : "false") + "\n  smaller: " + mdl::to_lit(ma) + "\n  bigger : " + mdl::to_lit(mb)); }
+		return;
+	}
 	if (v == 2) { violation("C07.implemented-selection", site, "an implemented selection threw NotImplementedException"); return; }
 	int want = mdl::incl(ma, mb); if (want < 0) { count(c_model_too_big); return; }
 	(want ? count(c_verdict_true) : count(c_verdict_false));
